@@ -20,4 +20,8 @@ func init() {
 		c.Flush(false)
 		c17System(c)
 	})
+	Register("C16", func(c *RunCtx) {
+		c16Post(c)
+		c16Graphs(c)
+	})
 }
